@@ -1,44 +1,72 @@
 /-
-C16 — model of `utype.utils.base.TypeRegistry` (register / resolve), utils/base.py:10-107.
+C16 — model of `utype.utils.base.TypeRegistry` (register / resolve), utils/base.py:11-128 (utype 7b3aeda: the
+registry list is published as a whole under `self._lock` and counted in `self._generation`).
 
-Hand-written, branch for branch.  Tied to the code by the correspondence check
-(harness/c16.py): the same register/resolve histories are run on a fresh real
-`TypeRegistry` and on `run` below and every resolve answer is compared.
+Hand-written, branch for branch.  Tied to the code twice:
+* T1 (lean/Utv/GenEq/C16.lean): the inner `decorator` of `register` (base.py:81-94) and `resolve` (base.py:101-128)
+  are regenerated from the source text on every run and proved equal to `register` / `resolve` below; the detector
+  closure (base.py:66-79 = `detClosure`) and the argument checks of the outer `register` (base.py:50-64 =
+  `registerOuter`) are NOT regenerated yet (requested; see design.d/C16.md) — they are tied by T2 only;
+* T2 (harness/c16.py): the same histories of public calls are run on a real `TypeRegistry` (fresh, with a live base
+  registry, and the library's own transformer / encoder registries through `utype.register_transformer` /
+  `utype.register_encoder`) and on `runCalls` / `run2` below; every answer is compared.
 
-Classes, callables, metaclasses and attribute names are natural numbers; the class
-world (`issubclass`, `isinstance(cls, meta)`, `hasattr`, behaviour of custom
-detectors, the shortcut attribute, the base registry / default) is an abstract
-structure, so every theorem holds for every class hierarchy.
+Classes, callables, metaclasses and attribute names are natural numbers; the class world (`issubclass`,
+`isinstance(cls, meta)`, `hasattr`, behaviour of custom detectors, the shortcut attribute, the validator, the
+default) is an abstract structure, so every theorem holds for every class hierarchy.
+
+Sequential reading of the lock / generation code: `with self._lock` has no sequential effect; `generation` read at
+base.py:113 is compared with `self._generation` at base.py:120 and nothing that the model's world can do in between
+changes it (detectors are functions of the class only: a detector that itself registers into the registry it is
+called from is outside the model), so the comparison is always true and the found converter is always cached when
+`cache=True`.  The counter itself is write-only here; it is carried by the T1 encoding (`encReg … gen …`) and by
+`Utv.Lemmas.C16Gen` (= number of accepted registrations so far).
 -/
 namespace Utv.C16
 
 structure World where
-  issub    : Nat → Nat → Bool          -- issubclass(t, c)
+  issub    : Nat → Nat → Bool          -- issubclass(t, c)   (raising on a non-class `t` = no match, base.py:123)
   isinst   : Nat → Nat → Bool          -- isinstance(t, metaclass)
   hasattr  : Nat → Nat → Bool          -- hasattr(t, attr)
   custom   : Nat → Nat → Option Bool   -- custom detector k on t; none = raises TypeError/ValueError
-  shortcut : Nat → Option Nat          -- valid shortcut attribute of t (base.py:91-93)
-  fallback : Nat → Option Nat          -- base.resolve(t) or default (base.py:104-107)
+  shortcut : Nat → Option Nat          -- shortcut attribute of t that passes the validator (base.py:104-106)
+  fallback : Nat → Option Nat          -- base.resolve(t) if a base registry is given, else default (base.py:125-128)
+  valid    : Nat → Bool := fun _ => true   -- self.validator(f) (base.py:82); `callable` in both library registries
 
-/-- A detector as data: the closure built in `register` (base.py:60-73) or a user function. -/
+/-- A detector as data: the closure built in `register` (base.py:66-79) or a user function. -/
 inductive Det where
   | std (classes : List Nat) (allowSub : Bool) (metacls attr : Option Nat)
   | custom (k : Nat)
-  deriving Repr
+  deriving Repr, DecidableEq
+
+/-- The closure `detector(_cls)` built by `register`, base.py:66-79, statement for statement:
+```
+if classes:
+    if allow_subclasses:
+        if not issubclass(_cls, classes): return False      # a tuple of classes: any of them
+    else:
+        if _cls not in classes: return False
+if metaclass:
+    if not isinstance(_cls, metaclass): return False
+if attr and not hasattr(_cls, attr): return False
+return True
+``` -/
+def detClosure (W : World) (classes : List Nat) (allowSub : Bool) (metacls attr : Option Nat) (t : Nat) : Bool :=
+  if (!classes.isEmpty) && (if allowSub then !(classes.any fun c => W.issub t c) else !(classes.contains t)) then false
+  else if (match metacls with | some m => !(W.isinst t m) | none => false) then false
+  else if (match attr with | some a => !(W.hasattr t a) | none => false) then false
+  else true
 
 def Det.matches (W : World) : Det → Nat → Bool
-  | .std cs sub m a, t =>
-      (cs.isEmpty || (if sub then cs.any (fun c => W.issub t c) else cs.contains t))
-      && (match m with | none => true | some m => W.isinst t m)
-      && (match a with | none => true | some a => W.hasattr t a)
-  -- `except (TypeError, ValueError): continue` (base.py:102-103): raising = no match
+  | .std cs sub m a, t => detClosure W cs sub m a t
+  -- `except (TypeError, ValueError): continue` (base.py:123-124): raising = no match
   | .custom k, t => (W.custom k t).getD false
 
 structure Entry where
   det  : Det
   fn   : Nat
   prio : Int
-  deriving Repr
+  deriving Repr, DecidableEq
 
 structure Reg where
   entries : List Entry := []
@@ -55,13 +83,14 @@ def sortPrio : List Entry → List Entry
   | [] => []
   | e :: es => ins e (sortPrio es)
 
-/-- `register(...)(f)` — base.py:75-82 *after* the `fix:` commit: insert at the front, always
-re-sort by priority (stable), drop the lookup cache. -/
+/-- `decorator(f)` once the validator has accepted `f` — base.py:84-94: drop the lookup cache, put the new entry in
+front of a copy of the list, re-sort by priority (stable), publish, count the generation. -/
 def register (r : Reg) (e : Entry) : Reg :=
   { r with entries := sortPrio (e :: r.entries), cache := [] }
 
-/-- The behaviour before the fix (kept for the negation witnesses in Props/C16):
-the sort is skipped for priority 0 and the cache is never invalidated. -/
+/-- The behaviour before the first `fix:` (61137ef), kept only so that the two fixed findings stay replayable
+against the model (`legacy_*_witness` in Props/C16; not part of the claim): the sort is skipped for priority 0 and
+the cache is never invalidated. -/
 def registerLegacy (r : Reg) (e : Entry) : Reg :=
   { r with entries := if e.prio != 0 then sortPrio (e :: r.entries) else e :: r.entries }
 
@@ -69,7 +98,7 @@ def lookup (t : Nat) : List (Nat × Nat) → Option Nat
   | [] => none
   | (k, v) :: rest => if k == t then some v else lookup t rest
 
-/-- `resolve(t)` — base.py:88-107. -/
+/-- `resolve(t)` — base.py:101-128. -/
 def resolve (W : World) (r : Reg) (t : Nat) : Reg × Option Nat :=
   match W.shortcut t with
   | some f => (r, some f)
@@ -105,6 +134,114 @@ def runWith (stp : Reg → Op → Reg × Option (Option Nat)) : Reg → List Op 
 def run (W : World) := runWith (step W)
 def runLegacy (W : World) := runWith (stepLegacy W)
 
+/-! ### The public call `register(*classes, attr=, detector=, metaclass=, allow_subclasses=, priority=)(f)` -/
+
+/-- one positional argument of `register` -/
+inductive ClsArg where
+  | cls (c : Nat)
+  | notClass                      -- anything `inspect.isclass` refuses
+  deriving Repr, DecidableEq
+
+/-- the `attr=` argument -/
+inductive AttrArg where
+  | absent                        -- None / '' / anything falsy: `if attr:` is not taken
+  | name (a : Nat)                -- a non-empty string
+  | notStr                        -- truthy, not a `str`
+  deriving Repr, DecidableEq
+
+structure RegArgs where
+  classes   : List ClsArg := []
+  attr      : AttrArg := .absent
+  detector  : Option Nat := none      -- a custom detector (number k of the world); none = not given
+  metaclass : Option Nat := none
+  allowSub  : Bool := true
+  priority  : Int := 0
+  deriving Repr
+
+inductive RegErr where
+  | valueError | assertionError | typeError
+  deriving Repr, DecidableEq
+
+def RegArgs.classIds (a : RegArgs) : List Nat :=
+  a.classes.filterMap fun | .cls c => some c | .notClass => none
+
+def RegArgs.attrName (a : RegArgs) : Option Nat :=
+  match a.attr with | .name n => some n | _ => none
+
+/-- The outer `register`, base.py:50-79: with a custom detector nothing else is looked at (not even checked);
+otherwise the arguments are checked in this order and the closure is built. -/
+def registerOuter (a : RegArgs) : Except RegErr Det :=
+  match a.detector with
+  | some k => .ok (.custom k)                                                   -- base.py:50 `if not detector:`
+  | none =>
+    if a.classes.isEmpty && a.attr == .absent && a.metaclass.isNone then .error .valueError   -- base.py:51-54
+    else if a.classes.any (· == .notClass) then .error .assertionError          -- base.py:56-59
+    else if a.attr == .notStr then .error .assertionError                       -- base.py:61-64
+    else .ok (.std a.classIds a.allowSub a.metaclass a.attrName)                -- base.py:66-79
+
+/-- `register(…)(f)`: base.py:50-94 as a whole.  A refused call leaves the registry as it was. -/
+def registerCall (W : World) (r : Reg) (a : RegArgs) (f : Nat) : Reg × Option RegErr :=
+  match registerOuter a with
+  | .error e => (r, some e)
+  | .ok d =>
+    if W.valid f then (register r ⟨d, f, a.priority⟩, none)
+    else (r, some .typeError)                                                   -- base.py:82-83
+
+inductive Call where
+  | register (a : RegArgs) (f : Nat)
+  | resolve (t : Nat)
+  deriving Repr
+
+inductive Out where
+  | conv (o : Option Nat)         -- what a resolve returned
+  | err (e : RegErr)              -- a refused registration
+  deriving Repr, DecidableEq
+
+/-- a history of public calls: every resolve answers, every refused registration reports its error -/
+def runCalls (W : World) : Reg → List Call → Reg × List Out
+  | r, [] => (r, [])
+  | r, .register a f :: cs =>
+    match registerCall W r a f with
+    | (r1, some e) => let (r2, outs) := runCalls W r1 cs; (r2, .err e :: outs)
+    | (r1, none) => runCalls W r1 cs
+  | r, .resolve t :: cs =>
+    let (r1, o) := resolve W r t
+    let (r2, outs) := runCalls W r1 cs
+    (r2, .conv o :: outs)
+
+/-! ### A live base registry (`TypeRegistry(base=…)`, base.py:125-127)
+
+The base is a registry of its own (own list, own cache, own shortcut attribute and default = its own world `Wb`,
+same classes); it can be registered into and resolved directly at any point of the history. -/
+
+/-- does `own.resolve(t)` return before reaching `if self.base:` (base.py:104-122)? -/
+def found (W : World) (r : Reg) (t : Nat) : Bool :=
+  (W.shortcut t).isSome || (r.cacheOn && (lookup t r.cache).isSome) || r.entries.any (fun e => e.det.matches W t)
+
+/-- `own.resolve(t)` when `own.base = base`: the base is asked (and may fill its own cache) only when nothing of
+the own registry answers; what the base answers is never cached in the own registry. -/
+def resolve2 (W Wb : World) (own base : Reg) (t : Nat) : Reg × Reg × Option Nat :=
+  if found W own t then ((resolve W own t).1, base, (resolve W own t).2)
+  else ((resolve W own t).1, (resolve Wb base t).1, (resolve Wb base t).2)
+
+inductive Op2 where
+  | reg (e : Entry)        -- own.register(…)(f)
+  | regBase (e : Entry)    -- base.register(…)(f)
+  | res (t : Nat)          -- own.resolve(t)
+  | resBase (t : Nat)      -- base.resolve(t)
+  deriving Repr
+
+def run2 (W Wb : World) : Reg → Reg → List Op2 → List (Option Nat)
+  | _, _, [] => []
+  | own, base, .reg e :: ops => run2 W Wb (register own e) base ops
+  | own, base, .regBase e :: ops => run2 W Wb own (register base e) ops
+  | own, base, .res t :: ops =>
+    let (own', base', o) := resolve2 W Wb own base t
+    o :: run2 W Wb own' base' ops
+  | own, base, .resBase t :: ops =>
+    let (base', o) := resolve Wb base t
+    o :: run2 W Wb own base' ops
+
 /-! ### Specification: a function of the registration history only -/
 
 /-- Chronological fold: a later matching registration replaces the current best when its
@@ -129,5 +266,71 @@ def specRun (W : World) : List Entry → List Op → List (Option Nat)
   | _, [] => []
   | regs, .reg e :: ops => specRun W (regs ++ [e]) ops
   | regs, .res t :: ops => specResolve W regs t :: specRun W regs ops
+
+/-- with a live base: the own registry's fallback is what the base's own registrations so far select -/
+def specRun2 (W Wb : World) : List Entry → List Entry → List Op2 → List (Option Nat)
+  | _, _, [] => []
+  | regs, bregs, .reg e :: ops => specRun2 W Wb (regs ++ [e]) bregs ops
+  | regs, bregs, .regBase e :: ops => specRun2 W Wb regs (bregs ++ [e]) ops
+  | regs, bregs, .res t :: ops =>
+    specResolve { W with fallback := fun t' => specResolve Wb bregs t' } regs t :: specRun2 W Wb regs bregs ops
+  | regs, bregs, .resBase t :: ops => specResolve Wb bregs t :: specRun2 W Wb regs bregs ops
+
+/-! ### The property's sentence, written on the arguments of the registrations (independent of `Det.matches`,
+`detClosure`, `find?`, `best`): read off the signature and comments of `TypeRegistry.register` (base.py:35-48:
+"detect class by issubclass or hasattr … the latest function will have the final effect") and the property text
+("exact class, subclass, metaclass, attribute, detector"). -/
+
+/-- a registration as the caller wrote it -/
+structure Registration where
+  args : RegArgs
+  fn   : Nat
+
+/-- `t` meets the registration's own criteria.  A custom detector stands for the whole criterion (the code does not
+look at the other arguments then: base.py:50); it accepts when it returns true — raising is not accepting. -/
+def Accepts (W : World) (a : RegArgs) (t : Nat) : Prop :=
+  match a.detector with
+  | some k => W.custom k t = some true
+  | none =>
+    (a.classIds ≠ [] →
+      (a.allowSub = true → ∃ c, c ∈ a.classIds ∧ W.issub t c = true)      -- a subclass of one of the classes
+      ∧ (a.allowSub = false → t ∈ a.classIds))                            -- exactly one of the classes
+    ∧ (∀ m, a.metaclass = some m → W.isinst t m = true)                  -- an instance of the metaclass
+    ∧ (∀ n, a.attr = .name n → W.hasattr t n = true)                     -- has the attribute
+
+/-- the call is accepted by `register` (has an effect at all): something to match by, classes are classes, the
+attribute name is a string, the target passes the registry's validator -/
+def WellFormed (W : World) (a : RegArgs) (f : Nat) : Prop :=
+  W.valid f = true ∧
+  (a.detector = none →
+    (a.classes ≠ [] ∨ a.attr ≠ .absent ∨ a.metaclass ≠ none)
+    ∧ (∀ c, c ∈ a.classes → c ≠ .notClass) ∧ a.attr ≠ .notStr)
+
+/-- "the converter used for `t` is the matching registration with the highest priority, the most recent one winning
+ties" — `regs` in the order the registrations were made. -/
+inductive Chosen (W : World) (regs : List Registration) (t : Nat) : Option Nat → Prop where
+  /-- the class carries its own converter (the registry's shortcut attribute) -/
+  | shortcut (f : Nat) : W.shortcut t = some f → Chosen W regs t (some f)
+  /-- `e` matches; nothing made before it that matches has a higher priority, nothing made after it that matches
+  has a priority as high -/
+  | reg (l₁ l₂ : List Registration) (e : Registration) :
+      W.shortcut t = none → regs = l₁ ++ e :: l₂ → Accepts W e.args t →
+      (∀ x, x ∈ l₁ → Accepts W x.args t → x.args.priority ≤ e.args.priority) →
+      (∀ x, x ∈ l₂ → Accepts W x.args t → x.args.priority < e.args.priority) →
+      Chosen W regs t (some e.fn)
+  /-- no registration matches: the base registry / default decides -/
+  | fallback : W.shortcut t = none → (∀ x, x ∈ regs → ¬ Accepts W x.args t) → Chosen W regs t (W.fallback t)
+
+/-- a whole history of public calls against the sentence above: a well-formed registration joins the registrations
+made so far and answers nothing; any other registration is refused with an error and changes nothing; every resolve
+answers the `Chosen` converter. -/
+inductive SpecCalls (W : World) : List Registration → List Call → List Out → Prop where
+  | nil (regs) : SpecCalls W regs [] []
+  | accepted (regs a f cs outs) : WellFormed W a f → SpecCalls W (regs ++ [⟨a, f⟩]) cs outs →
+      SpecCalls W regs (.register a f :: cs) outs
+  | refused (regs a f cs outs e) : ¬ WellFormed W a f → SpecCalls W regs cs outs →
+      SpecCalls W regs (.register a f :: cs) (.err e :: outs)
+  | resolve (regs t cs outs o) : Chosen W regs t o → SpecCalls W regs cs outs →
+      SpecCalls W regs (.resolve t :: cs) (.conv o :: outs)
 
 end Utv.C16
